@@ -435,6 +435,23 @@ int getpeername(int fd, struct sockaddr *sa, socklen_t *len)
 {
   REQ(VK_GETPEERNAME); r.a[0] = fd; (void) sa; (void) len; return vk_do(&r, 0, 0, 0, 0);
 }
+/* resolver: the answer bytes come from the scenario; dn_expand and friends stay real */
+extern int *__h_errno_location(void);
+static int vk_resquery(const char *name, int class, int type, unsigned char *answer, int anslen)
+{
+  long aout[6]; long ret; int outlen = 0; REQ(VK_RESQUERY);
+  r.a[0] = class; r.a[1] = type; r.a[2] = anslen; r.in = name; r.inlen = strlen(name) + 1;
+  memset(aout, 0, sizeof aout);
+  ret = vk_do(&r, answer, anslen, &outlen, aout);
+  if (ret < 0) { *__h_errno_location() = (int) aout[0]; return -1; }
+  return (int) ret;   /* the full length, which may exceed anslen, as the real resolver reports it */
+}
+int res_query(const char *n, int c, int t, unsigned char *a, int l) { return vk_resquery(n, c, t, a, l); }
+int __res_query(const char *n, int c, int t, unsigned char *a, int l) { return vk_resquery(n, c, t, a, l); }
+int res_search(const char *n, int c, int t, unsigned char *a, int l) { return vk_resquery(n, c, t, a, l); }
+int __res_search(const char *n, int c, int t, unsigned char *a, int l) { return vk_resquery(n, c, t, a, l); }
+int __res_init(void) { return 0; }
+int res_init(void) { return 0; }
 int ioctl(int fd, unsigned long reqno, ...)
 {
   void *arg; va_list ap; va_start(ap, reqno); arg = va_arg(ap, void *); va_end(ap);
